@@ -6,9 +6,13 @@
 // rendered text is derived from the model, never the other way round. No coca imports.
 //
 // Shapes that the C12 statement leaves open are either not generated (path= attribute, several paths or
-// verbs per mapping, paths without a leading slash, base paths ending in a slash, generic or array
+// verbs per mapping, generic or array
 // request-body types, nested classes, handler overloads) or generated with the affected field marked as
 // "not determined by the statement" (see Mapping.PathDetermined / VerbDetermined, Class.BaseDetermined).
+//
+// Base paths that end in '/' are generated (shorthand and value= form, both annotation orders); the handlers of
+// such a class carry method paths with and without a leading '/'. The expected Uri is always the plain
+// concatenation of the two written strings ("/api/v1/" + "/x" = "/api/v1//x", "/api/v1/" + "x" = "/api/v1/x").
 package springgen
 
 import (
@@ -162,6 +166,11 @@ func (c *Class) BaseDetermined() bool {
 	return false
 }
 
+// BaseTrailingSlash: the class-level mapping is a literal that ends in '/'.
+func (c *Class) BaseTrailingSlash() bool {
+	return (c.ClassMap == ClassMapShorthand || c.ClassMap == ClassMapValue) && strings.HasSuffix(c.Base, "/")
+}
+
 // OwnBase is the class's own base path ("" without class-level mapping). Only meaningful if BaseDetermined.
 func (c *Class) OwnBase() string {
 	if c.ClassMap == ClassMapNone {
@@ -209,6 +218,7 @@ func (p *Project) Controllers() []*Class {
 
 type gen struct {
 	r        *run.Rand
+	relPaths bool // the class being filled has a base path ending in '/': method paths also without leading '/'
 	org      string
 	dtoNames []string
 	usedCls  map[string]bool
@@ -328,6 +338,9 @@ func (g *gen) mapping() *Mapping {
 			m.Path = "/"
 		default:
 			m.Path = g.path()
+			if g.relPaths && r.Bool() {
+				m.Path = strings.TrimPrefix(m.Path, "/")
+			}
 		}
 	case FormConst, FormConstValue:
 		m.Path = g.constExpr()
@@ -685,6 +698,8 @@ func (g *gen) controller(forceMap string) *Class {
 	}
 	c.MarkerFirst = r.Chance(3, 5)
 	g.fillClassAnnos(c)
+	g.relPaths = c.BaseTrailingSlash()
+	defer func() { g.relPaths = false }()
 	if r.Chance(1, 8) {
 		c.Extends = r.Pick([]string{"BaseController", "AbstractResource"})
 	}
@@ -772,9 +787,15 @@ func (g *gen) fillClassAnnos(c *Class) {
 		}
 	case ClassMapShorthand:
 		c.Base = g.basePath()
+		if r.Chance(1, 5) {
+			c.Base += "/"
+		}
 		mapAnno = "@RequestMapping(" + quote(c.Base) + ")"
 	case ClassMapValue:
 		c.Base = g.basePath()
+		if r.Chance(1, 5) {
+			c.Base += "/"
+		}
 		args := []string{pair("value", quote(c.Base), tight)}
 		if r.Chance(1, 5) {
 			extra := r.Pick([]string{`produces = "application/json"`, `produces = MediaType.APPLICATION_JSON_VALUE`, `name = "grp"`})
@@ -1156,10 +1177,16 @@ func Shape(p *Project) string {
 		if c.MarkerFirst {
 			sb.WriteString(":mf")
 		}
+		if c.BaseTrailingSlash() {
+			sb.WriteString(":ts")
+		}
 		for _, m := range c.Members {
 			sb.WriteString("," + m.Kind)
 			if m.Mapping != nil {
 				sb.WriteString("/" + m.Mapping.Anno + "/" + m.Mapping.Form + "/" + m.BodyShape())
+				if m.Mapping.PathDetermined() && m.Mapping.Path != "" && !strings.HasPrefix(m.Mapping.Path, "/") {
+					sb.WriteString("/rel")
+				}
 			}
 		}
 		sb.WriteString("]")
